@@ -356,6 +356,39 @@ func GenHistory(r *hx.Rand, tier string, funded bool) string {
 	}
 	newNodes := []uint64{3, 6, 9}
 	owners := map[uint64]uint64{3: 6, 6: 7, 9: 8}
+	if era >= 8600000 && r.Chance(55) {
+		// scenario: nodes that share fees with their authorizers (costs take effect two epochs later)
+		for _, p := range []uint64{newNodes[r.Intn(3)], []uint64{1, 2, 4, 5, 7, 8, 10}[r.Intn(7)]} {
+			a := owners[p]
+			if a == 0 {
+				for _, g := range GenesisPeers {
+					if g[0] == p {
+						a = g[1]
+					}
+				}
+			} else {
+				emit(fmt.Sprintf("reg:%d:%d:%d:%d", a, p, a, pick(r, 10000, 20000, 30000)))
+			}
+			emit(fmt.Sprintf("maxauth:%d:%d:%d:%d", a, p, a, pick(r, 100000, 200000)))
+			if era >= 9400000 && r.Chance(60) {
+				emit(fmt.Sprintf("feepct:%d:%d:%d:%d:%d", a, p, a, pick(r, 0, 10, 50, 100), pick(r, 0, 20, 50, 100)))
+			} else {
+				emit(fmt.Sprintf("cost:%d:%d:%d:%d", a, p, a, pick(r, 0, 10, 50)))
+			}
+			for _, u := range []uint64{9, 10, 11}[:1+r.Intn(3)] {
+				emit(fmt.Sprintf("auth:%d:%d:%d,%d", u, u, p, pick(r, 500, 1000, 5000, 20000)))
+			}
+		}
+		for i := 0; i < 2+r.Intn(2); i++ {
+			h++
+			emit(fmt.Sprintf("ht:%d", h))
+			if r.Chance(70) {
+				emit(fmt.Sprintf("fee:%d", pick(r, 1000000000, 123456789012, 5000000000000, 1000000000000000)))
+			}
+			emit(fmt.Sprintf("commit:%d", AdminID))
+		}
+		n += 20
+	}
 	users := []uint64{9, 10, 11, 6, 7, 8, 1, 5}
 	anyPeer := func() uint64 { return uint64(1 + r.Intn(NPeers)) }
 	witness := func(a uint64) uint64 {
